@@ -1,23 +1,56 @@
 package main
 
 import (
-	"bytes"
 	"fmt"
+	"io"
 	"os"
+	"strconv"
 
 	"github.com/go-git/go-billy/v6/osfs"
+	"github.com/go-git/go-git/v6/plumbing"
 	"github.com/go-git/go-git/v6/plumbing/cache"
-	"github.com/go-git/go-git/v6/plumbing/format/packfile"
 	"github.com/go-git/go-git/v6/storage/filesystem"
-	"verif/internal/packlab"
+	"github.com/go-git/go-git/v6/x/fdpool"
 )
 
+func iter(st *filesystem.Storage, tag string, t plumbing.ObjectType) {
+	it, err := st.IterEncodedObjects(t)
+	if err != nil {
+		fmt.Println(tag, "iter err", err)
+		return
+	}
+	n := 0
+	for {
+		_, err := it.Next()
+		if err == io.EOF {
+			break
+		}
+		if err != nil {
+			fmt.Println(tag, "next err after", n, ":", err)
+			break
+		}
+		n++
+	}
+	it.Close()
+	fmt.Println(tag, "n =", n)
+}
+
 func main() {
-	pack, _ := os.ReadFile(os.Args[1])
-	dir := os.Args[2]
-	packlab.MakeBare(dir, "sha1")
-	st := filesystem.NewStorageWithOptions(osfs.New(dir), cache.NewObjectLRUDefault(), filesystem.Options{})
-	err := packfile.UpdateObjectStorage(st, bytes.NewReader(pack))
-	fmt.Println("err", err)
-	st.Close()
+	pool, _ := strconv.Atoi(os.Args[3])
+	o := filesystem.Options{ExclusiveAccess: os.Args[2] == "excl", UseInMemoryIdx: true}
+	if pool >= 0 {
+		o.Pool = fdpool.New(pool)
+	}
+	st := filesystem.NewStorageWithOptions(osfs.New(os.Args[1]), cache.NewObjectLRU(64*cache.KiByte), o)
+	iter(st, "fresh", plumbing.AnyObject)
+	for b := 0; b < 256; b++ {
+		st.HashesWithPrefix([]byte{byte(b)})
+	}
+	iter(st, "after-prefix-queries", plumbing.AnyObject)
+	iter(st, "blob", plumbing.BlobObject)
+	fmt.Println("closeidle", st.CloseIdleDescriptors())
+	iter(st, "after-closeidle", plumbing.AnyObject)
+	fmt.Println("reindex", st.Reindex())
+	iter(st, "after-reindex", plumbing.AnyObject)
+	iter(st, "after-reindex", plumbing.TreeObject)
 }
